@@ -6,7 +6,7 @@ package providers
 // ---- Google -------------------------------------------------------------------------------------------
 // The identity provider's answer is the environment: arbitrary status, arbitrary body.
 //@ func (p *GoogleProvider) googleRequest(method string, endpoint string, params url.Values, tags []string, response interface{}) error
-//@   modifies everything
+//@   modifies pointee(response), clock
 //@   let answered = called(@Do#1) && @Do#1.1 == nil && called(@ReadAll#1) && @ReadAll#1.1 == nil
 //@   ensures [C10] ok_needs_200: result == nil ==> answered && at(@Do#1, @Do#1.0.StatusCode) == 200
 //@   ensures [C10] body_decoded: result == nil && response != nil ==> called(@Unmarshal#2) && @Unmarshal#2 == nil
@@ -24,7 +24,7 @@ package providers
 //@   ensures [C10] no_email_on_error: result.1 != nil ==> result.0 == ""
 
 //@ func (p *GoogleProvider) Redeem(redirectURL string, code string) (*sessions.SessionState, error)
-//@   modifies everything
+//@   modifies clock
 //@   fresh result.0
 //@   ensures [C10] session_only_for_vouched_email: result.1 == nil ==> result.0 != nil && called(@googleRequest#1) && @googleRequest#1 == nil && called(@emailFromIDToken#1) && @emailFromIDToken#1.1 == nil && result.0.Email == @emailFromIDToken#1.0
 //@   ensures [C10] no_session_on_error: result.1 != nil ==> result.0 == nil
@@ -32,18 +32,18 @@ package providers
 
 // ---- Okta ---------------------------------------------------------------------------------------------
 //@ func (p *OktaProvider) verifyEmailWithAccessToken(AccessToken string) (string, error)
-//@   modifies everything
+//@   modifies clock
 //@   ensures [C10] from_userinfo: result.1 == nil ==> called(@GetUserProfile#1) && @GetUserProfile#1.1 == nil && result.0 == @GetUserProfile#1.0.EmailAddress && result.0 != "" && @GetUserProfile#1.0.EmailVerified
 //@   ensures [C10] no_email_on_error: result.1 != nil ==> result.0 == ""
 
 //@ func (p *OktaProvider) Redeem(redirectURL string, code string) (*sessions.SessionState, error)
-//@   modifies everything
+//@   modifies clock
 //@   fresh result.0
 //@   ensures [C10] session_only_for_vouched_email: result.1 == nil ==> result.0 != nil && called(@oktaRequest#1) && @oktaRequest#1 == nil && called(@verifyEmailWithAccessToken#1) && @verifyEmailWithAccessToken#1.1 == nil && result.0.Email == @verifyEmailWithAccessToken#1.0
 //@   ensures [C10] no_session_on_error: result.1 != nil ==> result.0 == nil
 
 //@ func (p *OktaProvider) oktaRequest(method string, endpoint string, params url.Values, tags []string, header http.Header, response interface{}) error
-//@   modifies everything
+//@   modifies pointee(response), clock
 //@   let answered = called(@Do#1) && @Do#1.1 == nil && called(@ReadAll#1) && @ReadAll#1.1 == nil
 //@   ensures [C10] ok_needs_200: result == nil ==> answered && at(@Do#1, @Do#1.0.StatusCode) == 200
 //@   ensures [C10] body_decoded: result == nil && response != nil ==> called(@Unmarshal#2) && @Unmarshal#2 == nil
@@ -52,43 +52,76 @@ package providers
 
 // ---- Amazon Cognito -----------------------------------------------------------------------------------
 //@ func (p *AmazonCognitoProvider) amazonCognitoRequest(method string, endpoint string, params url.Values, tags []string, header http.Header, basicAuth bool, response interface{}) error
-//@   modifies everything
+//@   modifies pointee(response), clock
 //@   let answered = called(@Do#1) && @Do#1.1 == nil && called(@ReadAll#1) && @ReadAll#1.1 == nil
 //@   ensures [C10] ok_needs_200: result == nil ==> answered && at(@Do#1, @Do#1.0.StatusCode) == 200
 //@   ensures [C10] error_status_is_error: answered && at(@Do#1, @Do#1.0.StatusCode) != 200 ==> result != nil
 //@   ensures [C10] transport_error_is_error: called(@Do#1) && @Do#1.1 != nil ==> result != nil
 
 //@ func (p *AmazonCognitoProvider) verifyEmailWithAccessToken(accessToken string) (string, error)
-//@   modifies everything
+//@   modifies clock
 //@   ensures [C10] from_userinfo: result.1 == nil ==> called(@GetUserProfile#1) && @GetUserProfile#1.1 == nil && result.0 == @GetUserProfile#1.0.EmailAddress && result.0 != ""
 //@   ensures [C10] no_email_on_error: result.1 != nil ==> result.0 == ""
 
 //@ func (p *AmazonCognitoProvider) Redeem(redirectURL string, code string) (*sessions.SessionState, error)
-//@   modifies everything
+//@   modifies clock
 //@   fresh result.0
 //@   ensures [C10] session_only_for_vouched_email: result.1 == nil ==> result.0 != nil && called(@amazonCognitoRequest#1) && @amazonCognitoRequest#1 == nil && called(@verifyEmailWithAccessToken#1) && @verifyEmailWithAccessToken#1.1 == nil && result.0.Email == @verifyEmailWithAccessToken#1.0
 //@   ensures [C10] no_session_on_error: result.1 != nil ==> result.0 == nil
 
 // ---- the Provider interface as the authenticator sees it ------------------------------------------------
 //@ interface Provider.Redeem(redirectURL string, code string) (*sessions.SessionState, error)
-//@   modifies everything
+//@   modifies clock
+//@   fresh result.0
 //@   ensures result.1 == nil ==> result.0 != nil
 //@   ensures result.1 != nil ==> result.0 == nil
 
 //@ interface Provider.Revoke(s *sessions.SessionState) error
-//@   modifies nothing
+//@   modifies clock
 
 //@ interface Provider.Data() *ProviderData
 //@   modifies nothing
 
 // ---- C19: revocation: nil exactly when the identity provider said ok or "already revoked" --------------
 //@ func (p *GoogleProvider) Revoke(s *sessions.SessionState) error
-//@   modifies everything
+//@   modifies clock
 //@   ensures [C19] revoked_or_already: result == nil <==> called(@googleRequest#1) && (@googleRequest#1 == nil || @googleRequest#1 == ErrTokenRevoked)
 //@   ensures [C19] error_passed_on: result != nil ==> result == @googleRequest#1
 //@   ensures [C19] revokes_this_token: called(@googleRequest#1) && before(@googleRequest#1, formGet(arg(@googleRequest#1, 3), "token")) == old(s.AccessToken)
 
 //@ func (p *OktaProvider) Revoke(s *sessions.SessionState) error
-//@   modifies everything
+//@   modifies clock
 //@   ensures [C19] revoked_or_already: result == nil <==> called(@oktaRequest#1) && (@oktaRequest#1 == nil || @oktaRequest#1 == ErrTokenRevoked)
 //@   ensures [C19] error_passed_on: result != nil ==> result == @oktaRequest#1
+
+//@ interface Provider.RefreshSessionIfNeeded(s *sessions.SessionState) (bool, error)
+//@   modifies s.AccessToken, s.RefreshDeadline, clock
+
+//@ interface Provider.ValidateSessionState(s *sessions.SessionState) bool
+//@   modifies clock
+
+//@ interface Provider.GetSignInURL(redirectURI string, finalRedirect string) string
+//@   modifies nothing
+
+// ---- C09: refreshes never extend the authenticator session's lifetime (frame excludes LifetimeDeadline) ------
+//@ func (p *GoogleProvider) RefreshSessionIfNeeded(s *sessions.SessionState) (bool, error)
+//@   modifies s.AccessToken, s.RefreshDeadline, clock
+//@   ensures [C09] refreshed_means_new_token: result.0 ==> result.1 == nil && called(@RefreshAccessToken#1) && @RefreshAccessToken#1.2 == nil && s.AccessToken == @RefreshAccessToken#1.0 && arg(@RefreshAccessToken#1, 1) == old(s.RefreshToken)
+//@   ensures [C09] provider_error_passed_on: called(@RefreshAccessToken#1) && @RefreshAccessToken#1.2 != nil ==> !result.0 && result.1 == @RefreshAccessToken#1.2
+
+//@ func (p *GoogleProvider) RefreshAccessToken(refreshToken string) (token string, expires time.Duration, err error)
+//@   modifies clock
+
+//@ func (p *OktaProvider) RefreshSessionIfNeeded(s *sessions.SessionState) (bool, error)
+//@   modifies s.AccessToken, s.RefreshDeadline, clock
+//@   ensures [C09] refreshed_means_new_token: result.0 ==> result.1 == nil && called(@RefreshAccessToken#1) && @RefreshAccessToken#1.2 == nil && s.AccessToken == @RefreshAccessToken#1.0
+
+//@ func (p *OktaProvider) RefreshAccessToken(refreshToken string) (token string, expires time.Duration, err error)
+//@   modifies clock
+
+//@ func (p *AmazonCognitoProvider) RefreshSessionIfNeeded(s *sessions.SessionState) (bool, error)
+//@   modifies s.AccessToken, s.RefreshDeadline, clock
+//@   ensures [C09] refreshed_means_new_token: result.0 ==> result.1 == nil && called(@RefreshAccessToken#1) && @RefreshAccessToken#1.2 == nil && s.AccessToken == @RefreshAccessToken#1.0
+
+//@ func (p *AmazonCognitoProvider) RefreshAccessToken(refreshToken string) (token string, expires time.Duration, err error)
+//@   modifies clock
